@@ -10,6 +10,7 @@
 #include <atomic>
 #include <memory>
 #include <sched.h>
+#include <map>
 #include <thread>
 #include <unistd.h>
 
@@ -222,7 +223,17 @@ void conc_dyn_case(Ctx &c) {
     int base = c.rng.pick<int>({2, 4, 8});
     int bl = 1 + int(c.rng.below(2)), il = bl + 1;
     uint64_t keyspace = c.rng.pick<uint64_t>({200, 2000, 20000});
-    std::unique_ptr<Idx> x(new Idx(uint8_t(base), uint8_t(bl), uint8_t(il)));
+    std::unique_ptr<Idx> x;
+    if (c.rng.chance(1, 3)) { // bulk-loaded start: the last level owns an index from the first round on
+        std::map<K, V> init;
+        size_t n0 = 1 + c.rng.below(keyspace);
+        for (size_t i = 0; i < n0; ++i) init[K(c.rng.below(keyspace))] = conc_value<V>(c.rng.below(1000));
+        std::vector<std::pair<K, V>> v(init.begin(), init.end());
+        x.reset(new Idx(v.begin(), v.end(), uint8_t(base), uint8_t(bl), uint8_t(il)));
+        c.count("dyn_bulk_loaded_start");
+    } else
+        x.reset(new Idx(uint8_t(base), uint8_t(bl), uint8_t(il)));
+    std::vector<K> hot; // keys at which the last update round left a long run of tombstones; constant while readers run
     c.input_hash = mix(c.rng.s, base * 100 + bl);
     c.traits = "dynamic";
     auto hv = [&](const V &v) -> uint64_t {
@@ -237,7 +248,8 @@ void conc_dyn_case(Ctx &c) {
         if (conc) st.enter();
         for (size_t i = 0; i < nops; ++i) {
             K k = K(r.below(keyspace + 2));
-            switch (r.below(6)) {
+            if (!hot.empty() && r.chance(1, 4)) k = K(hot[r.below(hot.size())] + K(r.below(6)));
+            switch (r.below(7)) {
                 case 0: { auto it = cx.find(k); d.add(it == cx.end() ? ~0ull : hv(it->second)); break; }
                 case 1: d.add(cx.count(k)); break;
                 case 2: { auto it = cx.lower_bound(k); d.add(it == cx.end() ? ~0ull : uint64_t(it->first)); break; }
@@ -247,6 +259,7 @@ void conc_dyn_case(Ctx &c) {
                     for (int s = 0; s < 20 && !(it == cx.end()); ++s, ++it) { d.add(uint64_t(it->first)); d.add(hv(it->second)); }
                     break;
                 }
+                case 5: { auto it = cx.begin(); d.add(it == cx.end() ? ~0ull : uint64_t(it->first)); break; }
                 default: if (r.chance(1, 40)) d.add(cx.size()); else d.add(cx.empty());
             }
             jitter(jr, conc);
@@ -259,10 +272,33 @@ void conc_dyn_case(Ctx &c) {
     int rounds = c.thorough() ? 4 : 2;
     for (int round = 0; round < rounds; ++round) {
         size_t nupd = 50 + c.rng.below(1500);
-        for (size_t i = 0; i < nupd; ++i) {
-            K k = K(c.rng.below(keyspace));
-            if (c.rng.chance(7, 10)) x->insert_or_assign(k, conc_value<V>(c.rng.below(1000)));
-            else x->erase(k);
+        // update shapes: random mix; a contiguous block inserted, pushed down by further inserts, then erased (a long run of
+        // tombstones shadowing live entries of a deeper level); an erase-only burst; a block erased at the very front
+        const int shape = int(c.rng.below(4));
+        hot.clear();
+        if (shape == 1 || shape == 3) {
+            size_t len = std::min<uint64_t>(keyspace - 1, 70 + c.rng.below(700));
+            K b = shape == 3 ? K(0) : K(c.rng.below(keyspace - len));
+            for (size_t i = 0; i < len; ++i) x->insert_or_assign(K(b + K(i)), conc_value<V>(i));
+            for (size_t i = 0; i < nupd; ++i) x->insert_or_assign(K(c.rng.below(keyspace)), conc_value<V>(c.rng.below(1000)));
+            for (size_t i = 0; i < len; ++i) x->erase(K(b + K(i)));
+            hot.push_back(b); hot.push_back(K(b + K(len / 2))); if (b > 3) hot.push_back(K(b - 3));
+            c.count(shape == 3 ? "dyn_rounds_front_block_erased" : "dyn_rounds_block_erased");
+            c.maxc("dyn_longest_erased_block", len);
+        } else if (shape == 2) {
+            for (size_t i = 0; i < nupd; ++i) x->insert_or_assign(K(c.rng.below(keyspace)), conc_value<V>(c.rng.below(1000)));
+            size_t burst = 30 + c.rng.below(400);
+            K b = K(c.rng.below(keyspace));
+            for (size_t i = 0; i < burst; ++i) x->erase(K((uint64_t(b) + i * (1 + c.rng.below(2))) % keyspace));
+            hot.push_back(b);
+            c.count("dyn_rounds_erase_burst");
+        } else {
+            for (size_t i = 0; i < nupd; ++i) {
+                K k = K(c.rng.below(keyspace));
+                if (c.rng.chance(7, 10)) x->insert_or_assign(k, conc_value<V>(c.rng.below(1000)));
+                else x->erase(k);
+            }
+            c.count("dyn_rounds_random_mix");
         }
         run_readers(c, seq, c.thorough() ? 3000 : 500, c.cfg.name.c_str());
     }
